@@ -6,14 +6,14 @@
 // vector (`n()` = number of 62-bit limbs, `wf` / `uv` / `sv` as for `UnsatInt<LIMBS>`).
 //
 // body (proved): struct items; BoxedUnsatInt::{LIMB_BITS, MASK, conditional_add, conditional_assign, conditional_negate, neg, shr_assign, zero,
-//   one, widen, is_negative, lowest, nlimbs, leading_zeros, bits, from_uint_widened, to_uint}; `AddAssign<BoxedUnsatInt>` / `AddAssign<&BoxedUnsatInt>`
+//   one, widen, is_minus_one, is_zero, is_one (folds; closure parameter pattern rewritten, see the `//@@ subst` there), is_negative, lowest, nlimbs, leading_zeros, bits, from_uint_widened, to_uint}; `AddAssign<BoxedUnsatInt>` / `AddAssign<&BoxedUnsatInt>`
 //   / `Mul<i64> for &BoxedUnsatInt`; the two slice-typed instances of `impl_limb_convert!` (//@@ macroblock); fg, de, divsteps, divsteps_vartime,
 //   BoxedSafeGcdInverter::norm, gcd, gcd_vartime.   (`jump`, `iterations`, `inv_mod2_62`, `unsat_nlimbs_for_sat_nlimbs`: l4_safegcd.rs.)
-// stub (ASSUMED, reason at each): is_minus_one / is_zero / is_one (fold closures with the reference pattern `|acc, &limb|`, unsupported by Verus),
-//   `From<&BoxedUint> for BoxedUnsatInt` (one-line wrapper; a trait-impl method cannot carry its callees' `requires`).
+// stub (ASSUMED, reason there): `From<&BoxedUint> for BoxedUnsatInt` (one-line wrapper; a trait-impl method cannot carry its callees' `requires`).
 // Also ASSUMED: `axiom_bernstein_yang_bound_steps` (Theorem 11.2 in its original step-count form, see there and the FINDING below),
 //   `<BoxedUnsatInt as Clone>::clone` (derived), `ConstantTimeGreater for u64` (subtle model), hand copies of `safegcd_nlimbs!` / `nlimbs!` and
-//   the adapter `impl_limb_convert!`; one use-site rewrite (`&*f * t[i][j]` -> `(&*f).mul(t[i][j])` in `fg`, Verus internal error otherwise).
+//   the adapter `impl_limb_convert!`; two use-site rewrites (`&*f * t[i][j]` -> `(&*f).mul(t[i][j])` in `fg`, Verus internal error otherwise;
+//   `|acc, &limb| acc & limb.ct_eq(..)` -> `|acc, limb| acc & (*limb).ct_eq(..)` in is_minus_one / is_zero / is_one, closure parameters must be plain variables).
 // Entry points still ASSUMED elsewhere (abstract inverter model `m()/adj()/nl()`): BoxedSafeGcdInverter::new, Inverter::invert (l8_boxed_monty.rs),
 //   invert_vartime (l8_boxed_monty2.rs), BoxedUint::inv_odd_mod (l8_boxed_invmod.rs).  `invert` / `invert_vartime` are PROVED against the concrete
 //   model of this unit (`swf`, `sg_invert_post`) in the work-in-progress units l8_boxed_safegcd_top.rs / _top2.rs (listed in .wip: the same /repo
@@ -529,19 +529,87 @@ pub fn widen(self, nlimbs: usize) -> (ret__: Self)
     }
 }
 //@@ end
-//@@ fn src/modular/safegcd/boxed.rs | impl BoxedUnsatInt | is_minus_one | stub | props C10
+/// accumulator chain of the folds `acc_k = acc_{k-1} & (s_{k-1} == c)` (is_zero / is_one / is_minus_one)
+spec fn uchain(accs: Seq<Choice>, s: Seq<u64>, c: u64) -> bool {
+    accs.len() == s.len() + 1
+        && forall|k: int| 1 <= k < accs.len() ==> (accs[k - 1].wf() ==> (#[trigger] accs[k]).wf() && accs[k].t() == (accs[k - 1].t() && s[k - 1] == c))
+}
+proof fn lemma_uchain(accs: Seq<Choice>, s: Seq<u64>, c: u64, j: nat)
+    requires uchain(accs, s, c), accs[0].wf(), j <= s.len()
+    ensures accs[j as int].wf(), accs[j as int].t() == (accs[0].t() && forall|k: int| 0 <= k < j ==> s[k] == c)
+    decreases j
+{
+    if j > 0 {
+        lemma_uchain(accs, s, c, (j - 1) as nat);
+        assert(accs[j as int].wf() && accs[j as int].t() == (accs[j - 1].t() && s[j - 1] == c));
+    }
+}
+/// the values 0, 1, -1 and their limb patterns (what `eq(&ZERO)` / `eq(&ONE)` / `eq(&MINUS_ONE)` decide in the fixed-width code)
+proof fn lemma_sv_consts(x: &BoxedUnsatInt)
+    requires x.wf()
+    ensures (x.sv() == 0) == (forall|k: int| 0 <= k < x.n() ==> x.0@[k] == 0),
+        (x.sv() == -1) == (forall|k: int| 0 <= k < x.n() ==> x.0@[k] == 0x3fff_ffff_ffff_ffffu64),
+        (x.sv() == 1) == (x.0@[0] == 1 && forall|k: int| 1 <= k < x.n() ==> x.0@[k] == 0),
+{
+    x.lemma_range();
+    let s = x.0@; let n = x.n(); let q = q62(n);
+    assert(1 * q == q); assert(0 * q == 0);
+    if forall|k: int| 0 <= k < n ==> s[k] == 0 { lemma_uval_zero(s, n); assert(x.sv() == 0); }
+    if x.sv() == 0 {
+        let z = Seq::new(n, |k: int| 0u64);
+        lemma_uval_zero(z, n); lemma_uval_inj(s, z, n);
+        assert forall|k: int| 0 <= k < n implies s[k] == 0 by { assert(s[k] == z[k]); }
+    }
+    if forall|k: int| 0 <= k < n ==> s[k] == 0x3fff_ffff_ffff_ffffu64 { lemma_uval_all_mask(s, n); assert(x.sv() == -1); }
+    if x.sv() == -1 {
+        let z = Seq::new(n, |k: int| 0x3fff_ffff_ffff_ffffu64);
+        lemma_uval_all_mask(z, n); lemma_uval_inj(s, z, n);
+        assert forall|k: int| 0 <= k < n implies s[k] == 0x3fff_ffff_ffff_ffffu64 by { assert(s[k] == z[k]); }
+    }
+    if s[0] == 1 && forall|k: int| 1 <= k < n ==> s[k] == 0 { lemma_uval_one(s, n); assert(x.sv() == 1); }
+    if x.sv() == 1 {
+        let z = Seq::new(n, |k: int| if k == 0 { 1u64 } else { 0u64 });
+        lemma_uval_one(z, n); lemma_uval_inj(s, z, n);
+        assert(s[0] == z[0]);
+        assert forall|k: int| 1 <= k < n implies s[k] == 0 by { assert(s[k] == z[k]); }
+    }
+}
+// Verus accepts only plain variables as closure parameters ("only variables are supported here, not general patterns"): the reference
+// pattern `&limb` of the three fold closures below (`|acc, &limb| acc & limb.ct_eq(..)`, limb: u64 copied out of the `&u64` item) is rewritten
+// textually into the equivalent `|acc, limb| acc & (*limb).ct_eq(..)` (limb: &u64, dereferenced at its only use).  Nothing else changes.
+//@@ subst \|acc, &limb\| => |acc, limb|
+//@@ subst ^(\s*)acc & limb\.ct_eq\( => \1acc & (*limb).ct_eq(
+//@@ fn src/modular/safegcd/boxed.rs | impl BoxedUnsatInt | is_minus_one | body | props C10
 impl BoxedUnsatInt {
-#[verifier::external_body]
 pub fn is_minus_one(&self) -> (ret__: Choice)
 //@+
-    // ASSUMED: `iter().fold(.., |acc, &limb| ..)` -- the closure parameter is a reference PATTERN (`&limb`), which Verus does not support
-    // (the fold itself is specifiable, see BoxedUint::is_zero in l8_boxed_methods.rs).  Contract = `eq(&MINUS_ONE)` of the fixed-width code.
+    // Contract = `eq(&MINUS_ONE)` of the fixed-width code.
     requires self.wf()
     ensures ret__.wf(), ret__.t() == (self.sv() == -1), ret__.t() == (forall|k: int| 0 <= k < self.n() ==> self.0@[k] == 0x3fff_ffff_ffff_ffffu64)
 //@-
 {
-    unimplemented!()
-}
+//@+
+    proof {
+        lemma_sv_consts(self);
+        assert forall|accs: Seq<Choice>| uchain(accs, self.0@, 0x3fff_ffff_ffff_ffffu64) && accs[0] == Choice(1) implies (#[trigger] accs[accs.len() - 1]).wf()
+            && accs[accs.len() - 1].t() == (forall|k: int| 0 <= k < self.n() ==> self.0@[k] == 0x3fff_ffff_ffff_ffffu64) by {
+            lemma_uchain(accs, self.0@, 0x3fff_ffff_ffff_ffffu64, self.0@.len());
+        }
+    }
+//@-
+        self.0
+            .iter()
+            .fold(Choice::from(1), |acc, limb|
+//@+
+    -> (r: Choice) ensures acc.wf() ==> r.wf() && r.t() == (acc.t() && *limb == 0x3fff_ffff_ffff_ffffu64)
+//@-
+{
+//@+
+    proof { assert forall|z: Choice| acc.wf() && z.wf() implies #[trigger] choice_and(acc, z).wf() && choice_and(acc, z).t() == (acc.t() && z.t()) by { lemma_choice_ops(acc, z); } }
+//@-
+acc & (*limb).ct_eq(&Self::MASK())
+})
+    }
 }
 //@@ end
 //@@ fn src/modular/safegcd/boxed.rs | impl BoxedUnsatInt | is_negative | body | props C10
@@ -562,35 +630,81 @@ pub fn is_negative(&self) -> (ret__: Choice)
     }
 }
 //@@ end
-//@@ fn src/modular/safegcd/boxed.rs | impl BoxedUnsatInt | is_zero | stub | props C10
+//@@ fn src/modular/safegcd/boxed.rs | impl BoxedUnsatInt | is_zero | body | props C10
 impl BoxedUnsatInt {
-#[verifier::external_body]
 pub fn is_zero(&self) -> (ret__: Choice)
 //@+
-    // ASSUMED: reference pattern `&limb` in the fold closure (see is_minus_one).  Contract = `eq(&ZERO)` of the fixed-width code.
+    // Contract = `eq(&ZERO)` of the fixed-width code.
     requires self.wf()
     ensures ret__.wf(), ret__.t() == (self.sv() == 0), ret__.t() == (forall|k: int| 0 <= k < self.n() ==> self.0@[k] == 0)
 //@-
 {
-    unimplemented!()
-}
+//@+
+    proof {
+        lemma_sv_consts(self);
+        assert forall|accs: Seq<Choice>| uchain(accs, self.0@, 0) && accs[0] == Choice(1) implies (#[trigger] accs[accs.len() - 1]).wf()
+            && accs[accs.len() - 1].t() == (forall|k: int| 0 <= k < self.n() ==> self.0@[k] == 0) by {
+            lemma_uchain(accs, self.0@, 0, self.0@.len());
+        }
+    }
+//@-
+        self.0
+            .iter()
+            .fold(Choice::from(1), |acc, limb|
+//@+
+    -> (r: Choice) ensures acc.wf() ==> r.wf() && r.t() == (acc.t() && *limb == 0)
+//@-
+{
+//@+
+    proof { assert forall|z: Choice| acc.wf() && z.wf() implies #[trigger] choice_and(acc, z).wf() && choice_and(acc, z).t() == (acc.t() && z.t()) by { lemma_choice_ops(acc, z); } }
+//@-
+acc & (*limb).ct_eq(&0)
+})
+    }
 }
 //@@ end
-//@@ fn src/modular/safegcd/boxed.rs | impl BoxedUnsatInt | is_one | stub | props C10
+//@@ fn src/modular/safegcd/boxed.rs | impl BoxedUnsatInt | is_one | body | props C10
 impl BoxedUnsatInt {
-#[verifier::external_body]
 pub fn is_one(&self) -> (ret__: Choice)
 //@+
-    // ASSUMED: reference pattern `&limb` in the fold closure (see is_minus_one); also `self.0[1..]` (range index through Box).
     // Contract = `eq(&ONE)` of the fixed-width code.
     requires self.wf()
     ensures ret__.wf(), ret__.t() == (self.sv() == 1), ret__.t() == (self.0@[0] == 1 && forall|k: int| 1 <= k < self.n() ==> self.0@[k] == 0)
 //@-
 {
-    unimplemented!()
-}
+//@+
+    let ghost tl = self.0@.subrange(1, self.0@.len() as int);
+    proof {
+        lemma_sv_consts(self);
+        assert forall|accs: Seq<Choice>| uchain(accs, tl, 0) && accs[0].wf() && accs[0].t() == (self.0@[0] == 1) implies (#[trigger] accs[accs.len() - 1]).wf()
+            && accs[accs.len() - 1].t() == (self.0@[0] == 1 && forall|k: int| 1 <= k < self.n() ==> self.0@[k] == 0) by {
+            lemma_uchain(accs, tl, 0, tl.len());
+            if forall|k: int| 0 <= k < tl.len() ==> tl[k] == 0 {
+                assert forall|k: int| 1 <= k < self.n() implies self.0@[k] == 0 by { assert(tl[k - 1] == self.0@[k]); }
+            }
+            if forall|k: int| 1 <= k < self.n() ==> self.0@[k] == 0 {
+                assert forall|k: int| 0 <= k < tl.len() implies tl[k] == 0 by { assert(tl[k] == self.0@[k + 1]); }
+            }
+        }
+    }
+//@-
+        self.0[1..]
+            .iter()
+            .fold(self.lowest().ct_eq(&1), |acc, limb|
+//@+
+    -> (r: Choice) ensures acc.wf() ==> r.wf() && r.t() == (acc.t() && *limb == 0)
+//@-
+{
+//@+
+    proof { assert forall|z: Choice| acc.wf() && z.wf() implies #[trigger] choice_and(acc, z).wf() && choice_and(acc, z).t() == (acc.t() && z.t()) by { lemma_choice_ops(acc, z); } }
+//@-
+acc & (*limb).ct_eq(&0)
+})
+    }
 }
 //@@ end
+//@@ subst-clear
+//@@ subst \b(Self|BoxedUnsatInt)::(MASK|LIMB_BITS)\b(?!\() => \1::\2()
 //@@ fn src/modular/safegcd/boxed.rs | impl BoxedUnsatInt | lowest | body | props C10
 impl BoxedUnsatInt {
 pub fn lowest(&self) -> (ret__: u64)
